@@ -206,9 +206,11 @@ class Machine:
         if mat is None:
             logging.error('"stage" used outside of a "begin" / "end" block.')
             return
-        rect = Rect(
-            self._reg.first_row, self._reg.last_row,
-            self._reg.first_column, self._reg.last_column)
+        rect = Rect(*(
+            int(index) if isinstance(index, float) and index.is_integer()
+            else index for index in (
+                self._reg.first_row, self._reg.last_row,
+                self._reg.first_column, self._reg.last_column)))
         mat.overlay_color(rect, color)
 
     def _color_matrix_light(self) -> None:
